@@ -422,10 +422,22 @@ func (ref *Node) DoGetField(r node.FieldRequest) (val.Value, error) {
 		return nil, err
 	}
 	opts := ref.options(r.Meta)
-	if opts.IgnoreEmpty && reflectIsEmpty(v) {
+	if opts.IgnoreEmpty && reflectIsEmpty(v) && !isListKey(r.Meta) {
 		return nil, err
 	}
 	return node.NewValue(r.Meta.Type(), v.Interface())
+}
+
+// the key of a list item is a value even when it is the empty string or zero
+func isListKey(m meta.Definition) bool {
+	if list, inList := m.Parent().(*meta.List); inList {
+		for _, k := range list.KeyMeta() {
+			if k.Ident() == m.Ident() {
+				return true
+			}
+		}
+	}
+	return false
 }
 
 func reflectIsEmpty(v reflect.Value) bool {
